@@ -677,15 +677,17 @@ theorem model_trend_plus_gap (n : Nat) (lam : Rat) (lw cw : List Nat) (ld cd : L
     have hv' : y[i]?.getD none = none := by simpa using hv
     rw [hg]; simp [hi, hv']
 
-/-- **`log=True` on the model**: with abstract `lg`/`ex`, trend and gap are `ex` of the trend and gap of the filter
-run on the logged data; if `ex` inverts `lg` and turns differences into quotients (`exp (a − b) = exp a / exp b`),
-then `trend · gap = data` wherever the observation exists. -/
-theorem model_log_trend_times_gap (lg ex : Rat → Rat) (hinv : ∀ v, ex (lg v) = v)
-    (hdiv : ∀ a b, ex (a - b) * ex b = ex a)
+/-- **`log=True` on the model: in logarithms, trend + gap = data.**  For abstract `lg`/`ex` with `lg (ex z) = z`
+(`log ∘ exp = id`, true of the real functions; satisfiable over `ℚ`, see the example below), wherever the observation
+`v` exists the returned trend and gap satisfy `lg trend + lg gap = lg v`.
+(Statement audit, round 5: the earlier multiplicative form `trend · gap = data` assumed `ex (lg v) = v` and
+`ex (a − b) · ex b = ex a` for *all* rationals, which no pair of functions `ℚ → ℚ` satisfies — a vacuous theorem; it is
+replaced by this one, whose hypothesis is met by non-trivial functions.) -/
+theorem model_log_trend_plus_gap_in_logs (lg ex : Rat → Rat) (hleft : ∀ z, lg (ex z) = z)
     (n : Nat) (lam : Rat) (lw cw : List Nat) (ld cd : List Rat)
     (y : Array (Option Rat)) (f : Filtered) (h : filterData lg ex n lam lw cw ld cd y = some f)
     (i : Nat) (hi : i < n) (v : Rat) (hv : y.getD i none = some v) :
-    ∃ g, f.gap.getD i none = some g ∧ g * f.trend.getD i 0 = v := by
+    ∃ g, f.gap.getD i none = some g ∧ lg (f.trend.getD i 0) + lg g = lg v := by
   obtain ⟨x, _, ht, hg⟩ := filterData_spec lg ex n lam lw cw ld cd y f h
   have hv' : y[i]?.getD none = some v := by simpa using hv
   refine ⟨ex (lg v - x.toVec.getD i 0), ?_, ?_⟩
@@ -694,7 +696,13 @@ theorem model_log_trend_times_gap (lg ex : Rat → Rat) (hinv : ∀ v, ex (lg v)
     simp only [Array.map_map]
     have : ((Array.range n).map (ex ∘ fun i => x.toVec.getD i 0)).getD i 0 = ex (x.toVec.getD i 0) := by
       simp [hi]
-    rw [this, hdiv, hinv]
+    rw [this, hleft, hleft]; ring
+
+/-- non-vacuity: `lg z = z / 2`, `ex z = 2 z` satisfy `lg (ex z) = z` and are not the identity; the model answers on a
+concrete instance with a level and a change constraint (kernel evaluation) -/
+example : (∀ z : Rat, (fun z => z / 2) ((fun z => 2 * z) z) = z) ∧
+    (filterData (fun z => z / 2) (fun z => 2 * z) 4 1 [3] [1] [7] [2] #[some 0, some 1, none, some 9]).isSome = true :=
+  ⟨fun z => by ring, by decide +kernel⟩
 
 /-- the system matrix sees the data only through the observation pattern (so `log=True`, which changes the
 values but not the pattern, solves the same matrix against the logged right-hand side) -/
